@@ -268,6 +268,23 @@ def run(ctx):
         check_parse(ctx, d2, p2, path, multi, agents, want_states, want_steps, triplets_states(triplets), True)
         if W.P["objects"] and f.chance(1, 4):
             kept_parser_renamed_world(ctx, W, d2, p2, path, multi, agents, want_states, want_steps, f)
+        elif f.chance(1, 3):
+            # history on the path: ANOTHER trajectory of exactly the same size is put at the same path (one digit of one
+            # fluent value differs) and read; on a file system with coarse timestamps size and mtime are unchanged
+            import re
+            text0 = fs.read_real_bytes(path).decode("utf-8")
+            spots = [m.start(1) for m in re.finditer(r"\(= \([^()]*\) -?([1-9])", text0)]
+            if spots:
+                i = spots[f.draw(len(spots))]
+                text1 = text0[:i] + str(int(text0[i]) % 9 + 1) + text0[i + 1:]
+                fs.write_real(path, text1)
+                try:
+                    states1, steps1 = pddl_reader.read_trajectory_tree(sexpr.read_one(text1))
+                except Exception:
+                    states1 = None
+                if states1 is not None:
+                    check_parse(ctx, d2, p2, path, multi, agents, states1, want_steps, None, False)
+                    ctx.probes["same_size_variant_over_same_path"] += 1
         elif len(triplets) >= 2 and f.chance(1, 3):
             # history on the path: a SHORTER trajectory (the first step only) is exported over the same file
             try:
